@@ -85,9 +85,87 @@ func Solve(d *Decls, asserts []*Term, getValues []*Term, timeoutS int, all bool,
 	if r.Status == "sat" || r.Status == "unsat" {
 		return r
 	}
+	// non-linear goals: quantifier-free slice with native arithmetic, raced with the full query
+	if qf, ok := qfNonlinearSlice(asserts); ok {
+		type res struct {
+			r  SolverResult
+			qf bool
+		}
+		ch := make(chan res, 2)
+		go func() {
+			x := solveWith(backends[:3], d, qf, nil, timeoutS, false, tag+" [qf-nia slice]")
+			ch <- res{x, true}
+		}()
+		go func() {
+			x := solveWith(backends, d, asserts, getValues, timeoutS, false, tag)
+			ch <- res{x, false}
+		}()
+		var full *SolverResult
+		for i := 0; i < 2; i++ {
+			x := <-ch
+			if x.qf && x.r.Status == "unsat" {
+				x.r.Backend += "/qf-nia"
+				x.r.Time += r.Time
+				return x.r
+			}
+			if !x.qf {
+				if x.r.Status == "unsat" || x.r.Status == "sat" {
+					x.r.Time += r.Time
+					return x.r
+				}
+				full = &x.r
+			}
+		}
+		if full != nil {
+			return *full
+		}
+	}
 	r2 := solveWith(backends, d, asserts, getValues, timeoutS, false, tag)
 	r2.Time += r.Time
 	return r2
+}
+
+// qfNonlinearSlice keeps the quantifier-free assertions and replaces the
+// axiomatised non-linear operators by the native ones.  Dropping
+// hypotheses is sound: unsat of the slice implies unsat of the full query.
+func qfNonlinearSlice(asserts []*Term) ([]*Term, bool) {
+	uses := false
+	var out []*Term
+	for _, a := range asserts {
+		hasQ := false
+		a.walk(func(t *Term) {
+			if t.Op == "forall" || t.Op == "exists" {
+				hasQ = true
+			}
+			if t.Op == "nmul" || t.Op == "gdiv" || t.Op == "gmod" {
+				uses = true
+			}
+		})
+		if hasQ {
+			continue
+		}
+		out = append(out, nativeNL(a))
+	}
+	return out, uses
+}
+
+func nativeNL(t *Term) *Term {
+	if t.IntVal != nil || len(t.Args) == 0 {
+		return t
+	}
+	na := make([]*Term, len(t.Args))
+	for i, a := range t.Args {
+		na[i] = nativeNL(a)
+	}
+	switch t.Op {
+	case "nmul":
+		return App("*", SInt, na[0], na[1])
+	case "gdiv":
+		return goDivInt(na[0], na[1])
+	case "gmod":
+		return Sub(na[0], App("*", SInt, na[1], goDivInt(na[0], na[1])))
+	}
+	return &Term{Op: t.Op, Sort: t.Sort, Args: na}
 }
 
 func solveWith(backends []backend, d *Decls, asserts []*Term, getValues []*Term, timeoutS int, all bool, tag string) SolverResult {
